@@ -18,6 +18,7 @@ struct Problem
     SplineTrajectory::BoundaryConditions<DIM> bc;
     double t0 = 0.0;
     bool by_points = false; // which overload carries the time information
+    bool default_bc = false; // all boundary derivatives zero: the boundary argument is omitted (default argument)
     int N() const { return (int)T.size(); }
 };
 
@@ -57,6 +58,12 @@ inline Problem<DIM> gen_problem(uint64_t seed, int N, int order, int domain, boo
     Problem<DIM> p;
     N = std::max(1, N);
     p.T = gen_durations(r, N, order, domain);
+    if (r.chance(0.04))
+    {
+        // a duration at or next to 1 s (the switch point of the bundled time map)
+        static const double near1[] = {1.0, 0.99999, 1.00001, 0.999999999, 1.000000001, 0.99995};
+        p.T[(size_t)r.below((uint64_t)N)] = near1[(size_t)r.below(6)];
+    }
     {
         double u = r.unit();
         if (u < 0.05)
@@ -106,18 +113,29 @@ inline Problem<DIM> gen_problem(uint64_t seed, int N, int order, int domain, boo
         for (int d = 0; d < DIM; ++d) v(d) = r.chance(0.2) ? 0.0 : r.real(-2.0, 2.0) * std::min(unit, 1e4) * 0.5;
         return v;
     };
+    p.default_bc = r.chance(0.1);
+    if (!p.default_bc)
+    {
     p.bc.start_velocity = bvec(1);
     p.bc.end_velocity = bvec(1);
     p.bc.start_acceleration = bvec(2);
     p.bc.end_acceleration = bvec(2);
     p.bc.start_jerk = bvec(3);
     p.bc.end_jerk = bvec(3);
+    }
     return p;
 }
 
 template <class Spline, int DIM>
 inline void apply_update(Spline &s, const Problem<DIM> &p)
 {
+    if (p.default_bc)
+    {
+        // the boundary argument is left to its default (zero boundary derivatives)
+        if (p.by_points) s.update(p.tp, p.P);
+        else s.update(p.T, p.P, p.t0);
+        return;
+    }
     if (p.by_points) s.update(p.tp, p.P, p.bc);
     else s.update(p.T, p.P, p.t0, p.bc);
 }
@@ -125,6 +143,7 @@ inline void apply_update(Spline &s, const Problem<DIM> &p)
 template <class Spline, int DIM>
 inline std::unique_ptr<Spline> make_spline(const Problem<DIM> &p)
 {
+    // (the twin always passes the boundary state explicitly: for default_bc problems it is the zero state)
     if (p.by_points) return std::unique_ptr<Spline>(new Spline(p.tp, p.P, p.bc));
     return std::unique_ptr<Spline>(new Spline(p.T, p.P, p.t0, p.bc));
 }
